@@ -68,8 +68,11 @@ def build_program(prog, rng):
         parts = {"ode": ["ic"], "statio2": ["boundary"], "nonstatio1": ["ic"] + (["boundary"] if not want_p else [])}[kind]
         if want_o:
             parts = parts + ["obs"]
-        pr = Problem(dict(kind=pk, d={"ode": 0, "statio2": 2, "nonstatio1": 1}[kind], n_out=1, ncomp=2, seed=seed), rng,
-                     parts, reads=("theta", "phi"))
+        pcase = dict(kind=pk, d={"ode": 0, "statio2": 2, "nonstatio1": 1}[kind], n_out=1, ncomp=2, seed=seed)
+        if prog.get("inf_placeholder"):
+            # an equation parameter that is +inf and never used (e.g. an "unbounded" capacity): finite everywhere else
+            pcase["extra_eq"] = {"cap": float("inf")}
+        pr = Problem(pcase, rng, parts, reads=("theta", "phi"))
         loss = pr.loss(dk="both")
         params = pr.params
         problem = pr
